@@ -145,6 +145,9 @@ class GradOracle:
             return
         m = self.model
         Xb, Ab = self.h.cur_batch
+        if self.deco and any(i < 0 for i in self.h.cur_ids):
+            res.probe("steps_with_undecidable_duplicates")
+            return
         P = m._infer(Xb, retain=False)
         if not np.all(np.isfinite(P)) or P.min() < SAT_LO or P.max() > SAT_HI:
             res.probe("steps_saturated")
